@@ -24,9 +24,12 @@ MODULE = 'Sbepp.Properties.C06'
 THEOREMS = [
     'Sbepp.Properties.C06.vas_eq_extracted',
     'Sbepp.Properties.C06.spec_executable',
-    'Sbepp.Properties.C06.checked_valid_iff_partial',
-    'Sbepp.Properties.C06.checked_group_valid_iff_partial',
-    'Sbepp.Properties.C06.checked_valid_iff_full_false',
+    # verdict/size at full strength since /repo 3b08414 (fix 0031): every layout, every n < 2^64 (n is a std::size_t;
+    # checked_valid_iff_needs_size_t: in the model, whose offsets are unbounded naturals, the bound is needed)
+    'Sbepp.Properties.C06.checked_valid_iff',
+    'Sbepp.Properties.C06.checked_group_valid_iff',
+    'Sbepp.Properties.C06.checked_valid_iff_full',
+    'Sbepp.Properties.C06.checked_valid_iff_needs_size_t',
     'Sbepp.Properties.C06.checked_reads_below_n_partial',
     'Sbepp.Properties.C06.checked_group_reads_below_n_partial',
     'Sbepp.Properties.C06.strict_implies_fits',
@@ -59,8 +62,8 @@ THEOREMS = [
     'Sbepp.Checked.Tie.runGroup_extracted',
     # the property theorems restated for the extracted member functions
     'Sbepp.Properties.C06.checked_model_is_extracted',
-    'Sbepp.Properties.C06.checked_valid_iff_partial_extracted',
-    'Sbepp.Properties.C06.checked_group_valid_iff_partial_extracted',
+    'Sbepp.Properties.C06.checked_valid_iff_extracted',
+    'Sbepp.Properties.C06.checked_group_valid_iff_extracted',
     'Sbepp.Properties.C06.checked_reads_below_n_partial_extracted',
     'Sbepp.Properties.C06.checked_group_reads_below_n_partial_extracted',
     'Sbepp.Properties.C06.checked_reads_slack_extracted',
@@ -97,21 +100,34 @@ CORPUS_SCHEMA = {
         # witness (iii) of checked_work_bounded_full_false `loopMsg`
         {'name': 'MLoop', 'id': 5, 'fields': [],
          'groups': [{'name': 'g', 'id': 6, 'dim': 'Dim', 'fields': [], 'groups': [], 'datas': []}], 'datas': []},
-        # witness of checked_valid_iff_full_false `wideMsg`
+        # regression witness `wideMsg` (a uint64 length whose size_bytes wraps: repaired by /repo 3b08414, fix 0031)
         {'name': 'MWide', 'id': 7, 'fields': [], 'groups': [], 'datas': [{'name': 'd', 'id': 8, 'type': 'Var64'}]},
     ],
 }
 H = [0, 0, 1, 0, 1, 0, 0, 0]   # header: blockLength 0
-# (message, bytes, n, mutation label, expected `what` on the current code)
+# (message, bytes, n, mutation label, expected `what` on the current code; 'none': a REPAIRED defect - the request must
+# give impl = spec = model without any failure, if the defect returns the request is a failing input of the VIOLATION)
 CORPUS_REQUESTS = [
     ('MData', H, 8, {'mut_field': 'truncate', 'mut_value': '-', 'prim': '-', 'owner': '-', 'corpus': 'dataMsg'}, 'overread'),
     ('MField', H, 8, {'mut_field': 'blockLength', 'mut_value': '0', 'prim': 'uint16', 'owner': 'message',
                       'corpus': 'shortMsg'}, 'overread'),
     ('MLoop', H + [0, 255], 10, {'mut_field': 'blockLength+numInGroup', 'mut_value': '0+max', 'prim': 'uint8',
                                  'owner': 'group', 'corpus': 'loopMsg'}, 'unbounded-loop'),
+    # sizeof(length) + length wraps to 7 (before the repair: valid=1, size=15), to 0 (valid=1, size=8), to 4 (1,12)
     ('MWide', H + [255] * 8, 16, {'mut_field': 'length', 'mut_value': 'max', 'prim': 'uint64', 'owner': 'data',
-                                  'corpus': 'wideMsg'}, 'wrong-verdict'),
+                                  'corpus': 'wideMsg'}, 'none'),
+    ('MWide', H + [248] + [255] * 7, 16, {'mut_field': 'length', 'mut_value': 'max-7', 'prim': 'uint64', 'owner': 'data',
+                                          'corpus': 'wideMsg-sum-0'}, 'none'),
+    ('MWide', H + [252] + [255] * 7 + [1, 2, 3, 4], 20, {'mut_field': 'length', 'mut_value': 'max-3', 'prim': 'uint64',
+                                                        'owner': 'data', 'corpus': 'wideMsg-sum-4'}, 'none'),
+    # a 64-bit length that does fit, and one byte short of it
+    ('MWide', H + [3] + [0] * 7 + [0x61, 0x62, 0x63], 19, {'mut_field': 'length', 'mut_value': 'fit', 'prim': 'uint64',
+                                                          'owner': 'data', 'corpus': 'wideOk'}, 'none'),
+    ('MWide', H + [3] + [0] * 7 + [0x61, 0x62], 18, {'mut_field': 'length', 'mut_value': 'fit+1', 'prim': 'uint64',
+                                                    'owner': 'data', 'corpus': 'wideOk-short'}, 'none'),
 ]
+# what the specification says for the 'none' requests (the check fails if the model driver says otherwise)
+CORPUS_SPEC = {'wideMsg': '0,0', 'wideMsg-sum-0': '0,0', 'wideMsg-sum-4': '0,0', 'wideOk': '1,19', 'wideOk-short': '0,0'}
 
 
 def corpus_case(chk, run):
@@ -510,11 +526,19 @@ def correspond(chk, run, variants, values_per_msg):
                 chk.sample({'message': r.msg['name'], 'driver_line': r.driver_line()[:200], 'mutation': r.mut,
                             'impl': io, 'model': r.mk['model'], 'spec': r.mk['spec']})
     chk.cov['distinct_nontrivial'] += len(nontrivial)
-    # the refutation witnesses of Properties/C06.lean must still fail on the real code in the way the theorems say
+    # the refutation witnesses of Properties/C06.lean must still fail on the real code in the way the theorems say;
+    # the regression witnesses of repaired defects ('none') must give the specified answer in implementation and model
+    # (a wrong implementation answer is already reported above as impl≠spec with the request as failing input)
     stats['lean_witnesses_replayed'] = {k: [dict(expected=e, observed=o, impl=i, model=m, spec=sp) for (e, o, i, m, sp) in v]
                                         for k, v in corpus_seen.items()}
     for name, obs in corpus_seen.items():
         for (expect, whats, io, model, spec) in obs:
+            if expect == 'none':
+                if spec != CORPUS_SPEC.get(name) or model != spec:
+                    chk.report_unproved('a regression witness of a repaired defect: the model or the specification does '
+                                        'not give the recorded answer', {'witness': name, 'recorded_spec': CORPUS_SPEC.get(name),
+                                                                         'impl': io, 'model': model, 'spec': spec})
+                continue
             if expect not in whats:
                 chk.report_unproved('a refutation witness of Properties/C06.lean no longer fails on the implementation '
                                     '(the model or the *_full_false theorem is out of date)',
